@@ -66,9 +66,9 @@ Definition ord_from_doy (y j : Z) : option Z :=
 Definition cal_fields (c : cal) : list Z :=
   [year_y c; year_g c; quarter c; month c; dom c; doy c; week_w c; week_u c; week_v c].
 
-(* order-sensitive checksum of all nine fields over [a, a+len) -- used by the correspondence check *)
-Definition MODP : Z := 2305843009213693951.
-Definition mix (acc x : Z) : Z := (acc * 1000003 + x + 7) mod MODP.
+(* order-sensitive checksum of all nine fields over [a, a+len) -- used by the correspondence check
+   (small modulus: big-number arithmetic is what costs time in vm_compute) *)
+Definition mix (acc x : Z) : Z := (acc * 31 + x + 7) mod 1000003.
 Definition checksum (a : Z) (len : N) : Z :=
   snd (N.iter len (fun '(i, acc) => (i + 1, fold_left mix (cal_fields (cal_of i)) acc)) (a, 0)).
 
